@@ -112,9 +112,24 @@ def handleMerge (j : Json) : Json :=
     let fuel := 2 * nodeSize node + 4
     let ok := Asm.labelsOK fuel node 0
     let cert := Smi.certifyMerge fuel node 0
+    let tcert := Smi.certifyTree fuel node
     match Asm.mergeInt fuel node 0 with
-    | .ok s => Json.mkObj [("ok", Json.bool true), ("smiles", Json.str (String.ofList s)), ("labels_ok", Json.bool ok), ("certified", Json.bool cert)]
+    | .ok s => Json.mkObj [("ok", Json.bool true), ("smiles", Json.str (String.ofList s)), ("labels_ok", Json.bool ok), ("certified", Json.bool cert), ("tree_certified", Json.bool tcert)]
     | .error e => Json.mkObj [("ok", Json.bool false), ("error", Json.str (toString (repr e))), ("labels_ok", Json.bool ok)]
+  | _ => Json.mkObj [("error", "no tree")]
+
+partial def decodeONode (j : Json) : Smi.ONode :=
+  let sh := (j.getObjValAs? String "shifted").toOption.getD ""
+  let kids := match j.getObjVal? "kids" with
+    | .ok (Json.arr a) => a.toList.map decodeONode
+    | _ => []
+  .mk sh.toList kids
+
+def handleObserved (j : Json) : Json :=
+  match j.getObjVal? "tree" with
+  | .ok t =>
+    let out := (j.getObjValAs? String "out").toOption.getD ""
+    Json.mkObj [("observed_certified", Json.bool (Smi.certifyObserved (decodeONode t) out.toList))]
   | _ => Json.mkObj [("error", "no tree")]
 
 def handleReact (j : Json) : Json :=
@@ -154,6 +169,7 @@ def handle (line : String) : Json :=
     | some "cli" => handleCli j
     | some "gate" => handleGate j
     | some "merge" => handleMerge j
+    | some "observed" => handleObserved j
     | some "react" => handleReact j
     | some "ping" => Json.mkObj [("pong", Json.bool true)]
     | _ => Json.mkObj [("error", "unknown op")]
